@@ -115,9 +115,9 @@ Definition ledger : list (string * coverage) := [
   ("core/src/eval/stack.rs::Iterator for StackMarkerIter<'_, C>::next:expect#1",
    Delegated "C18" "C18_stack_typed" "coq/Mem: every pop/read happens at the type the marker selects; see also C18_sites_all_covered for the unsafe sites");
   ("core/src/pretty.rs::PrettyPrintCap::pretty_print_cap:libcall#1",
-   KnownDefect "panic:core/src/pretty.rs:called `Option::unwrap()` on a `None` value" "pretty_print_cap_panics" _ pretty_print_cap_panics "reachable: output.len() counts bytes, nth(max_width) counts characters (proposed/C10-pretty-print-cap.diff)");
+   KnownDefect "panic:core/src/pretty.rs:called_Option::unwrap_on_a_None_value" "pretty_print_cap_panics" _ pretty_print_cap_panics "reachable: output.len() counts bytes, nth(max_width) counts characters (proposed/C10-pretty-print-cap.diff)");
   ("core/src/pretty.rs::PrettyPrintCap::pretty_print_cap:unwrap#1",
-   KnownDefect "panic:core/src/pretty.rs:called `Option::unwrap()` on a `None` value" "pretty_print_cap_panics" _ pretty_print_cap_panics "reachable: output.len() counts bytes, nth(max_width) counts characters (proposed/C10-pretty-print-cap.diff)");
+   KnownDefect "panic:core/src/pretty.rs:called_Option::unwrap_on_a_None_value" "pretty_print_cap_panics" _ pretty_print_cap_panics "reachable: output.len() counts bytes, nth(max_width) counts characters (proposed/C10-pretty-print-cap.diff)");
   ("core/src/pretty.rs::PrettyPrintCap::pretty_print_cap:index#1",
    Unproved "output[..end] with end taken from char_indices(): a char boundary by construction; not modelled");
   ("core/src/term/string.rs::NickelString::substring:sub#1",
@@ -125,7 +125,7 @@ Definition ledger : list (string * coverage) := [
   ("core/src/term/string.rs::NickelString::find_all_regex:unwrap#1",
    Unproved "capt.get(0).unwrap(): group 0 always participates in a match (guarantee of the regex crate, not modelled)");
   ("core/src/term/string.rs::NickelString::find_all_regex:expect#1",
-   KnownDefect "panic:core/src/term/string.rs:We already know that `first_match.start()` occurs on a clust" "find_all_index_panics" _ find_all_index_panics "reachable: an empty match at the end of the string starts at offset len, which grapheme_indices never yields (proposed/C10-find-all-end-match.diff; no_panic_find_all_fixed for the repair)");
+   KnownDefect "panic:core/src/term/string.rs:We_already_know_that_first_match.start_occurs_on_a_clust" "find_all_index_panics" _ find_all_index_panics "reachable: an empty match at the end of the string starts at offset len, which grapheme_indices never yields (proposed/C10-find-all-empty-match.diff; no_panic_find_all_fixed for the repair)");
   ("core/src/typecheck/reporting.rs::NameReg::gen_candidate_name:cast#1",
    ByTheorem "no_panic_candidate_char" _ no_panic_candidate_char "'a' + (next % 26) is a valid scalar value; the casts are on values below 26 / equal to 97");
   ("core/src/typecheck/reporting.rs::NameReg::gen_candidate_name:cast#2",
@@ -241,7 +241,7 @@ Definition ledger : list (string * coverage) := [
   ("parser/src/lexer.rs::Iterator for Lexer<'input>::next:unwrap#1",
    ByTheorem "lexer_consumes" _ lexer_consumes "self.lexer is None only inside enter_*/leave_*, which restore it on every non-panicking path; those paths never panic");
   ("parser/src/lexer.rs::normalize_line_endings:debug_assert#1",
-   KnownDefect "panic:parser/src/lexer.rs:The lexer throws an error when it finds a lone carriage retu" "lone_cr_reaches_literal" _ lone_cr_reaches_literal "reachable: the greedy literal regexes swallow a lone carriage return that is not at the start of the literal; debug assertion fails (proposed/C10-lexer-lone-cr.diff)");
+   KnownDefect "panic:parser/src/lexer.rs:The_lexer_throws_an_error_when_it_finds_a_lone_carriage_retu" "lone_cr_reaches_literal" _ lone_cr_reaches_literal "reachable: the greedy literal regexes swallow a lone carriage return that is not at the start of the literal; debug assertion fails (proposed/C10-lexer-lone-cr.diff)");
   ("parser/src/utils.rs::mk_span:cast#1",
    ByTheorem "mk_span_id" _ mk_span_id "usize as u32 truncates: identity for offsets of sources shorter than 4 GiB (hypothesis of the theorem; larger sources are not covered)");
   ("parser/src/utils.rs::mk_span:cast#2",
